@@ -10,6 +10,9 @@ Model of the time-unit logic of ingest (C16), mirroring — quirks included —
       ConvertTimestampToMillis    (l.142-171)  string scalar: ParseUint, ns → ms, s → ms, then date layouts
       IsTimeInMilli / IsTimeInNano             REGENERATED: SigModel.Gen.IsTimeInMilli / IsTimeInNano
       normalizeIntToSeconds                    REGENERATED: SigModel.Gen.normalizeIntToSeconds
+  pkg/integrations/splunk/splunk.go
+      getPLE / getHecEventTime                 the HEC envelope's `time` (number or numeric string) as the
+                                               event time when the envelope has no timestamp key
   pkg/segment/writer/metrics/metricssegment.go
       ExtractOTSDBPayload         (l.854-906)  "timestamp" number / string → uint32 seconds
       ExtractOTLPPayload          (l.996-1026) "timestamp" number → uint32 seconds (ns, ms, s)
@@ -303,6 +306,34 @@ def ingestStored (handlerMs : Int) (sc : Scalar) : Res :=
   match extractTimeStamp sc with
   | .ms n => if n ≠ 0 then .ms n else if handlerMs ≠ 0 then .ms handlerMs else .now
   | .now => .now
+
+/-! ## Splunk HEC: the envelope's `time` -/
+
+/-- `getHecEventTime` (pkg/integrations/splunk/splunk.go, added by the repair): the envelope field
+`time`, a JSON number or a JSON string holding a number (`t` = the characters of the number,
+`none` = no such field / any other JSON type), in epoch milliseconds; 0 = "the envelope has no usable
+time".  The Go code reads the value as a binary64 (encoding/json, resp. strconv.ParseFloat), requires
+`epoch > 0`, renders it with strconv.AppendFloat(…, 'f', -1, 64) and hands `{"time":<that>}` to
+ExtractTimeStamp.  ABSTRACTED: the re-rendered token is the shortest decimal that reads back as the
+same binary64; the model applies `extractNum` to the ORIGINAL token (same binary64 on the float path;
+for whole numbers the re-rendered token takes the integer path, which agrees with the float path on
+the seconds window: `Props.C16.hec_whole_seconds_both_paths`). -/
+def hecEventTime : Option (List Char) → Int
+  | none => 0
+  | some t =>
+    match jpParseFloat t with
+    | none => 0
+    | some f => if f.neg || f.q == 0 then 0 else extractNum t
+
+/-- what is stored for a HEC event (`getPLE` → `GetNewPLE` → `ProcessIndexRequestPle`): a timestamp
+key at the envelope's root wins (behaviour kept), otherwise the envelope's `time`, otherwise the
+arrival time. -/
+def hecStored (time : Option (List Char)) (rootTs : Scalar) : Res :=
+  ingestStored (hecEventTime time) rootTs
+
+/-- before the repair `time` was never read -/
+def hecStoredOld (_time : Option (List Char)) (rootTs : Scalar) : Res :=
+  ingestStored 0 rootTs
 
 /-! ## metrics: "timestamp" → uint32 seconds -/
 
